@@ -77,7 +77,9 @@ class C07(Prop):
     case_timeout = 20
     nontrivial_rule = ("random histories on real Container/Store/PriorityStore/FilterStore objects: 1-8 driver processes, "
                        "amounts from {1,2,3,5,1/2} (plus rare invalid 0/-1), capacities 1..10 / k/2 (also for stores) / infinite, initial levels, "
-                       "items with priorities from a 3-element set (ties common, repeated items), filters 'item = r mod m', "
+                       "items [value, tag, uid] that compare equal by value only (values/priorities from a 3-4 element set, so equal-but-distinct "
+                       "items are the rule; 25% of FilterStore cases use raw int/float/bool numbers of equal value), "
+                       "filters 'value = r mod m and tag = t' (tag/type filters separate equal values), "
                        "put/get in modes wait / nowait / patience (with-block + timeout, then cancel), cancels of arbitrary "
                        "(head, non-head, triggered, already cancelled) requests, delays from {0,1,2,1/2,3}; "
                        "non-trivial = at least one request waited in a queue and at least two grants happened; distinct by case hash")
@@ -90,8 +92,8 @@ class C07(Prop):
         "vlib/translate.py (Python ast, fail closed; observation/effect tables at the top of props/c07.py) regenerates "
         "coq/Gen/Extracted_container.v and Extracted_store.v from the _do_put/_do_get bodies of the tree under test before every "
         "build; the C07_gen_* theorems (Props/C07_Bridge.v) bridge them to the hand-written model (finite capacities)",
-        "FilterStore: list.remove(item) removes the first element EQUAL to the matching item; items whose __eq__ "
-        "disagrees with their filter are outside the model",
+        "items are modelled as (value, tag, uid) with Leibniz equality; Python's == on items (value only) matters only in the "
+        "as-found FilterStore._do_get (list.remove), kept as FilterStore_unfixed for the refutation theorem",
         "the model quantifies over every interleaving of operations and event processing; that the real kernel processes a "
         "triggered event before the clock advances is C01's statement and is checked here on every observed execution (admissibility)",
     ]
@@ -118,12 +120,17 @@ class C07(Prop):
                 return rng.choice(["0/1", "-1/1"])
             return rng.choice(AMOUNTS)
         if op == "put":
-            if kind == "prio":
-                return [rng.choice([0, 1, 2]), rng.randint(0, 9)]
-            return rng.randint(0, 7)
+            # an item is [value, tag, uid]: items of equal value compare EQUAL (==) although they are distinct
+            # objects (distinct uid, possibly distinct tag); for PriorityStore the value is the priority.
+            # raw mode (FilterStore): plain numbers of equal value and different type, int/float/bool = tag 0/1/2
+            self._uid += 1
+            v = rng.choice([0, 1, 2]) if kind == "prio" else rng.randint(0, 3)
+            if self._raw:
+                return [v, rng.choice([0, 1, 2] if v in (0, 1) else [0, 1]), 0]
+            return [v, rng.choice([0, 1, 2]), self._uid]
         if kind == "filter":
-            m = rng.choice([1, 2, 2, 3])
-            return [m, rng.randrange(m)]
+            m = rng.choice([1, 1, 2, 2, 3])
+            return [m, rng.randrange(m), rng.choice([-1, -1, 0, 1, 2])]      # value = r mod m, and tag (or any: -1)
         return None
 
     def gen_case(self, rng, tier):
@@ -138,6 +145,10 @@ class C07(Prop):
         else:
             cap = qj(rng.randint(1, 10) if kind == "container" else rng.choice([1, 1, 2, 2, 3, 4, 6, 10]))
         case = {"kind": kind, "cap": cap, "t0": rng.choice(["0/1", "0/1", "1/2", "3/1"])}
+        self._uid = 0
+        self._raw = kind == "filter" and rng.random() < 0.25
+        if kind == "filter":
+            case["raw"] = self._raw
         if kind == "container":
             top = fr(cap) if cap is not None else F(10)
             case["init"] = qj(min(top, F(rng.randint(0, 20), 2)) if rng.random() < 0.8 else top)
@@ -198,10 +209,29 @@ class C07(Prop):
             return orig_schedule(event, *a, **k)
         env.schedule = schedule
 
+        class Item:
+            """an ordinary value object: equality by value; tag and uid do not take part in ==
+            (like a dataclass with compare=False fields)"""
+            __slots__ = ("v", "tag", "uid")
+
+            def __init__(self, v, tag, uid):
+                self.v, self.tag, self.uid = v, tag, uid
+
+            def __eq__(self, other):
+                return isinstance(other, Item) and self.v == other.v
+
+            def __hash__(self):
+                return hash(self.v)
+
+        RAW = [int, float, bool]
+        raw = bool(case.get("raw"))
+
         def canon_item(x):
             if kind == "prio":
-                return [x.priority, x.item]
-            return x
+                x = x.item
+            if isinstance(x, Item):
+                return [x.v, x.tag, x.uid]
+            return [int(x), RAW.index(type(x)), 0]
 
         def snapshot():
             if kind == "container":
@@ -230,10 +260,15 @@ class C07(Prop):
             if kind == "container":
                 return res.put(num(p)) if op == "put" else res.get(num(p))
             if op == "put":
-                return res.put(PriorityItem(p[0], p[1]) if kind == "prio" else p)
+                if raw:
+                    return res.put(RAW[p[1]](p[0]))
+                it = Item(p[0], p[1], p[2])
+                return res.put(PriorityItem(p[0], it) if kind == "prio" else it)
             if kind == "filter":
-                m, r = p
-                return res.get(lambda x, m=m, r=r: x % m == r)
+                m, r, t = p
+                if raw:
+                    return res.get(lambda x, m=m, r=r, t=t: x % m == r and (t < 0 or type(x) is RAW[t]))
+                return res.get(lambda x, m=m, r=r, t=t: x.v % m == r and (t < 0 or x.tag == t))
             return res.get()
 
         def proc(ins):
@@ -302,25 +337,26 @@ class C07(Prop):
     # ---- model ------------------------------------------------------------------------------
     def _K(self, case):
         cap = cf.opt(case["cap"], cf.q)
-        return {"container": f"(Container {cap})", "store": f"(Store Z {cap})",
-                "prio": f"(PriorityStore (Z * Z) fst {cap})", "filter": f"(FilterStore Z {cap})"}[case["kind"]]
+        return {"container": f"(Container {cap})", "store": f"(Store item {cap})",
+                "prio": f"(PriorityStore item item_v {cap})", "filter": f"(FilterStore item {cap})"}[case["kind"]]
 
     def _content(self, kind, c):
         if kind == "container":
             return cf.q(c)
-        if kind == "prio":
-            return cf.lst([cf.pair(cf.z(a), cf.z(b)) for a, b in c])
-        return cf.lst([cf.z(x) for x in c])
+        return cf.lst([self._item(x) for x in c])
+
+    def _item(self, x):
+        return cf.pair(cf.z(x[0]), cf.z(x[1]), cf.z(x[2]))
 
     def _act(self, kind, a):
         t = a[0]
         if t == "put":
             p = a[1]
-            v = cf.q(p) if kind == "container" else (cf.pair(cf.z(p[0]), cf.z(p[1])) if kind == "prio" else cf.z(p))
+            v = cf.q(p) if kind == "container" else self._item(p)
             return f"@APut K {v}"
         if t == "get":
             p = a[1]
-            v = cf.q(p) if kind == "container" else (f"(fmod {cf.z(p[0])} {cf.z(p[1])})" if kind == "filter" else "tt")
+            v = cf.q(p) if kind == "container" else (f"(fsel {cf.z(p[0])} {cf.z(p[1])} {cf.z(p[2])})" if kind == "filter" else "tt")
             return f"@AGet K {v}"
         if t == "cancel":
             return f"@ACancel K {cf.nat(a[1])}"
@@ -331,9 +367,7 @@ class C07(Prop):
     def _value(self, kind, v):
         if kind == "container":
             return "tt"
-        if kind == "prio":
-            return cf.pair(cf.z(v[0]), cf.z(v[1]))
-        return cf.z(v)
+        return self._item(v)
 
     def _terms(self, case, obs):
         kind = case["kind"]
@@ -403,8 +437,8 @@ class C07(Prop):
         nlog = 0
         prev = {"c": case.get("init") if kind == "container" else [], "pq": [], "gq": [], "tr": []}
 
-        def matches(p, x):
-            return x % p[0] == p[1]
+        def matches(p, x):          # x = [value, tag, uid]
+            return x[0] % p[0] == p[1] and (p[2] < 0 or x[1] == p[2])
 
         def satisfiable_put(snap, p):
             if kind == "container":
